@@ -163,6 +163,8 @@ def plan(prop, tier):
         P += S("release", "hist", n=6000 if q else 40000, shards=4, profile="headroom")
         P += S("release", "prefix", n=150 if q else 1500, shards=2 if q else 8)
         P += S("release", "ladder", n=6, shards=2 if q else 4, keys=3000 if q else 20000, timeout=2400)
+        # capacity() >= len() and the headroom clause also after a caught panic in user code
+        P += S("release", "fault", n=60 if q else 1500, shards=2 if q else 4, timeout=5400)
     elif prop == "C05":
         for fl in ["release", "debug", "asan"] + ([] if q else ["msan", "valgrind"]):
             P += S(fl, "sentinels")
